@@ -51,6 +51,9 @@ CLAIMS = {
  'C19': dict(technique="runtime monitoring: exact-rational (fractions.Fraction) oracle observing every Python-level fixed-point operation and the vsim-simulated outputs of compiled wrappers over all raw values",
              text="Exploration: all source/target formats left -2..3 (thorough -3..4), right -3..2 (-4..3), width <=4 (<=6) x 4 style combinations x all raw values for resize; all format pairs x all value pairs for + - *; constructions and equality; sampled configurations in emitted logic.",
              ref="2 C19"),
+ 'C12': dict(technique="runtime monitoring: one generated description rendered as an instantiation tree and as inlined logic, both executed by vsim under identical input sequences with an online output comparator; parsed text checked against the generator's port and wiring tables",
+             text="Exploration: random trees depth <=3, repeated templates, whole/slice/element/view actuals, instances inside contexts, shuffled keyword order; 68 (thorough 208) clocks per design; entity interface, template count, emission order and every port map compared with the declared tables.",
+             ref="2 C12"),
  'C17': dict(technique="runtime monitoring: seeded type compositions compiled into round-trip entities executed by vsim over all bit patterns; an independent recursive layout calculator is the oracle for every leaf offset",
              text="Exploration: random compositions (arrays, nested/inherited/templated records, enums, fixed point, Serialized container, BitField) nesting <=3; all bit patterns for widths <=12; to_bits/from_bits identities and per-leaf offsets.",
              ref="2 C17"),
